@@ -151,15 +151,6 @@ theorem C03_threads_covers_interleavings (s : Stage E) (hn : s.threads ≠ 0) {x
 
 /-! ## Shards -/
 
-private theorem sel_parts {X : Type} (sel : E → List X) (f : List E → List E) (parts : List (List E)) :
-    ((parts.map fun part => (f part).map sel).map List.flatten).flatten
-      = ((parts.flatMap f).map sel).flatten := by
-  induction parts with
-  | nil => rfl
-  | cons p parts ih =>
-    simp only [List.map_cons, List.flatten_cons, List.flatMap_cons, List.map_append,
-      List.flatten_append, ih]
-
 /-- **Shards** (one operator chain).  For every well-formed data source, every shard count `k ≥ 1`, a
 row-wise chain and a lawful aggregate: running each `shard(i, k)` on its own emits, shard after shard,
 exactly the list the whole run emits, and `merge_states` over the `k` shard states (in shard order)
@@ -227,37 +218,6 @@ theorem C03_shards_any_order (ops : List (Op E)) (hrow : ∀ o ∈ ops, o.isRow 
 
 /-! ## The in-process interleaved stage runner -/
 
-/-- `zs` is what the next stage's iterator has dequeued from a stage's `result_q` in some reachable
-configuration of the queue LTS — any capacity, any timeout setting, any consumer loop (`get` or
-`get_batch` of any batch size), any schedule — with exactly one producer enqueueing the stream `ys`
-(the queue transports the positions `0..len-1`), once everything was put and everything put was
-delivered. -/
-def QueueDelivers (ys zs : List E) : Prop :=
-  ∃ (cap : Nat) (to ig : Bool) (r : Nat) (cons : Prog) (c : Cfg) (t : Thread),
-    cons.kind ≠ .producer ∧
-    Reachable (init cap 1 to ig [.producer ((List.range ys.length).map .val) r, cons]) c ∧
-    c.ths[1]? = some t ∧ c.sh.produced.length = ys.length ∧ t.received.length = c.sh.produced.length ∧
-    zs = (t.received.map (·.2)).filterMap (ys[·]?)
-
-private theorem vals_range (n : Nat) : vals ((List.range n).map .val) = List.range n := by
-  unfold vals
-  rw [List.filterMap_map]
-  show List.filterMap some (List.range n) = List.range n
-  exact List.filterMap_some
-
-private theorem filterMap_range'_getElem? (pre ys : List E) :
-    (List.range' pre.length ys.length).filterMap ((pre ++ ys)[·]?) = ys := by
-  induction ys generalizing pre with
-  | nil => rfl
-  | cons y ys ih =>
-    simp only [List.length_cons, List.range'_succ, List.filterMap_cons]
-    have h1 : (pre ++ y :: ys)[pre.length]? = some y := by simp
-    rw [h1]
-    have := ih (pre ++ [y])
-    simp only [List.length_append, List.length_cons, List.length_nil, Nat.zero_add,
-      List.append_assoc, List.cons_append, List.nil_append] at this
-    rw [this]
-
 /-- **One producer, one consumer: the queue is the identity on lists** (FIFO, C04). -/
 theorem C03_queue_identity {ys zs : List E} (h : QueueDelivers ys zs) : zs = ys := by
   obtain ⟨cap, to, ig, r, cons, c, t, hc, hr, ht, hall, hdel, rfl⟩ := h
@@ -281,30 +241,6 @@ theorem C03_stage_runner (deliver : List E → List E) (hq : ∀ ys, QueueDelive
 
 section Rebatch
 variable {ρ : Type} (rows : E → List ρ)
-
-/-- an operator that respects the row view: a row-wise operator acts row by row inside an element
-(vectorised `apply`/`assign`); a re-batcher conserves the rows and their order (C19_rows) -/
-def RowsOK : Op E → Prop
-  | .row f => ∃ fr : ρ → List ρ, ∀ e, (f e).flatMap rows = (rows e).flatMap fr
-  | .rebatch g => ∀ xs, (g xs).flatMap rows = xs.flatMap rows
-
-/-- a chain of such operators acts on the row sequence as one row-wise function -/
-theorem runOps_rows (ops : List (Op E)) (h : ∀ o ∈ ops, RowsOK rows o) :
-    ∃ fr : ρ → List ρ, ∀ xs, (runOps ops xs).flatMap rows = (xs.flatMap rows).flatMap fr := by
-  induction ops with
-  | nil => exact ⟨fun r => [r], fun xs => by simp [runOps_nil]⟩
-  | cons o ops ih =>
-    obtain ⟨g, hg⟩ := ih (fun o' ho' => h o' (List.mem_cons_of_mem _ ho'))
-    have ho := h o List.mem_cons_self
-    cases o with
-    | rebatch r =>
-      refine ⟨g, fun xs => ?_⟩
-      rw [runOps_cons, hg, Op.run, ho xs]
-    | row f =>
-      obtain ⟨fr, hfr⟩ := ho
-      refine ⟨fun r => (fr r).flatMap g, fun xs => ?_⟩
-      rw [runOps_cons, hg, Op.run, List.flatMap_assoc, ← List.flatMap_assoc (g := g)]
-      simp only [hfr, List.flatMap_assoc]
 
 /-- The full statement of the property for pipelines with a re-batching operator would be
 `(parts.flatMap (runOps ops)).Perm (runOps ops xs)` (same multiset of emitted *batches*); that is false
@@ -363,31 +299,6 @@ theorem C03_rebatch_threads_partial (pre post : List (Op E)) (hpre : ∀ o ∈ p
 end Rebatch
 
 /-! ## Non-vacuity (tests of the definitions, `decide`d) -/
-
-/-- the integer count/sum/sum-of-squares metric is lawful and commutative with `Eqv := (=)` -/
-theorem momentsM_lawfulComm : LawfulComm momentsM (· = ·) where
-  refl _ := rfl
-  symm h := h.symm
-  trans h1 h2 := h1.trans h2
-  merge_congr h1 h2 := by rw [h1, h2]
-  result_congr h := by rw [h]
-  empty_eq := rfl
-  hom xs ys := by
-    simp [momentsM, List.sum_append, List.map_append]
-  comm xs ys := by
-    simp only [momentsM, List.length_append, List.sum_append, List.map_append, Prod.mk.injEq]
-    refine ⟨by omega, by omega, by omega⟩
-
-/-- the collecting metric is lawful (not commutative): shards merged in order and the stage runner
-preserve even the order of what it collected -/
-theorem collectM_lawful : Lawful collectM (· = ·) where
-  refl _ := rfl
-  symm h := h.symm
-  trans h1 h2 := h1.trans h2
-  merge_congr h1 h2 := by rw [h1, h2]
-  result_congr h := by rw [h]
-  empty_eq := rfl
-  hom _ _ := rfl
 
 /-- a row-wise two-stage pipeline with aggregates: `x ↦ 2x` per row, then drop batches whose first
 row is `[4]` -/
